@@ -313,7 +313,8 @@ func baseRawGet(L *LState) int {
 
 func baseRawSet(L *LState) int {
 	L.RawSet(L.CheckTable(1), L.CheckAny(2), L.CheckAny(3))
-	return 0
+	L.SetTop(1)
+	return 1
 }
 
 func baseSelect(L *LState) int {
